@@ -42,7 +42,9 @@ class C10(Check):
 
     # ---- generation ----------------------------------------------------------------------------------------------
     def generate(self, rng: random.Random, r: int, tier: str) -> dict:
-        ws = G.gen_workspace(rng, roots=(1, 3), defs=(2, 9), p_split_root=0.15)
+        # p_derive: some constants are expressions over constants of OTHER definitions (ns.Type.M.m.NAME + n): a dependency that
+        # exists only inside an expression is a dependency (closure, transitive list) like any other
+        ws = G.gen_workspace(rng, roots=(1, 3), defs=(2, 9), p_split_root=0.15, p_derive=rng.choice([0.0, 0.5]), p_const=rng.choice([0.25, 0.6]), p_other_root_ns=0.15)
         uni = Universe(ws)
         nroots = len(ws["roots"])
         scn: dict = {"ws": ws, "fmt": {}, "symlinks": [["l%d" % i, "w/d%d" % i] for i in range(nroots)], "extra_files": [], "groups": []}
